@@ -345,6 +345,45 @@ func VerifC04ShortCircuit(v *vrt.T) {
 	v.Reach("end")
 }
 
+// VerifC04ShortCircuitTyped: as above, but the right operand is a comparison on a field that
+// may be missing or of a type the comparison does not accept (a type fault, not an
+// arithmetic one), and the left operand is a reference or a function call.
+func VerifC04ShortCircuitTyped(v *vrt.T) {
+	op := []ast.TokenType{ast.TokenAnd, ast.TokenOr}[v.Choose("op", 2)]
+	nk := v.Bound("kinds", 6)
+	x := verifSymVal(v, "x", nk)
+	cmp := []ast.TokenType{ast.TokenGreater, ast.TokenEqual, ast.TokenLessEqual}[v.Choose("cmp", 3)]
+	right := &ast.BinaryNode{Operator: cmp, Left: &ast.ReferenceNode{Reference: "x"}, Right: &ast.NumberNode{IsInt: true, Int64: 1}}
+	var left ast.Node
+	var lv bool
+	s := NewScope()
+	s.Set("x", x.scopeValue())
+	if v.Choose("leftkind", 2) == 0 {
+		lv = v.Bool("left")
+		left = &ast.ReferenceNode{Reference: "l"}
+		s.Set("l", lv)
+	} else {
+		// isPresent("x"): true iff the field exists
+		left = &ast.FunctionNode{Type: ast.GlobalFunc, Func: "isPresent", Args: []ast.Node{&ast.ReferenceNode{Reference: "x"}}}
+		lv = x.k != vkMissing
+	}
+	expr, err := NewExpression(&ast.BinaryNode{Operator: op, Left: left, Right: right})
+	v.Assume(err == nil)
+	res, err := expr.Eval(s)
+	rv, rok := verifRefBinary(cmp, x, verifVal{k: vkInt, i: 1})
+	decided := (op == ast.TokenAnd && !lv) || (op == ast.TokenOr && lv)
+	v.Observe("err", err != nil)
+	switch {
+	case decided:
+		v.Assert(err == nil && res == interface{}(lv), "left operand decides: a faulty right comparison is not evaluated")
+	case !rok:
+		v.Assert(err != nil, "type fault in the evaluated right operand is an error")
+	default:
+		v.Assert(err == nil && res == interface{}(rv.b), "value of the right comparison")
+	}
+	v.Reach("end")
+}
+
 // VerifC05TypedEval (kernel K3 of C05): the typed entry points nodes use (EvalBool via
 // EvalPredicate, EvalInt, EvalFloat, EvalString, EvalDuration) report evaluation faults as
 // errors and never panic.
